@@ -33,7 +33,7 @@ def comparator_tables(ctx, which):
     vs = [v['n'] for v in ctx.F.adts[adt]['variants']] if adt in ctx.F.adts else []
     if B is not None and R is not None:
         try:
-            if len(rank_table(R, len(vs))) < len(vs) - 1:
+            if sum(1 for v_ in rank_table(R, len(vs)).values() if v_ is not None) < len(vs) - 1:
                 R = None
         except Exception:
             R = None
@@ -52,7 +52,7 @@ def comparator_tables(ctx, which):
                 rt_ = rank_table(RB_, len(vs))
             except Exception:
                 rt_ = {}
-            if len(rt_) >= len(vs) - 1 and len(set(rt_.values())) >= 5:
+            if sum(1 for v_ in rt_.values() if v_ is not None) >= len(vs) - 1 and len(set(rt_.values())) >= 5:
                 R, rank_fn = RB_, c_
                 break
     if B is None or R is None:
